@@ -105,6 +105,22 @@ def _chunk(seed, lo, hi, extra):
                 if main.diff_trees(lt, rt, diff_options=opts, formatter=fcls() if fcls else None) != first:
                     fail("C06/repeated-call-differs/element-tree-objects/" + fname)
                     break
+            # ... and freshly parsed trees every time, with many candidates that tie (the result may not depend on where
+            # the objects happen to live)
+            if idx % 10 == 0:
+                from lxml import etree as _et2
+
+                tl = "<r>" + "".join("<p>item alpha %d</p>" % i for i in range(1, 3)) + "</r>"
+                tr = "<r>" + "".join("<p>item alpha %s</p>" % c for c in "ABCDEFGHIJKLMNOPQRSTUVWXYZabcd") + "</r>"
+                for mm in ({"best_match": True}, {"fast_match": True}, {}):
+                    outs = set()
+                    keep = []
+                    for rep in range(4):
+                        keep.append([object() for _ in range(rep * 37)])  # shift the allocator a little
+                        outs.add(repr(main.diff_trees(_et2.fromstring(tl), _et2.fromstring(tr), diff_options=dict(mm))))
+                    if len(outs) != 1:
+                        fail("C06/repeated-call-on-fresh-trees-differs", tie_documents=[tl, tr], diff_options=repr(mm), distinct_results=len(outs))
+                        break
             # (b) a Differ with history
             d = diff.Differ(**opts)
             hist = []
